@@ -164,19 +164,19 @@ def decodeResponse (cd : Codec) (code down : Nat) (data : List Nat) : Res (Optio
       | none => pure none
       | some uid => do
         let rest ← sliceFrom body 2
-        pure <| (cd.dec 84 rest).bind fun val => (le32 val).bind fun (ver, r) =>
+        cd.decode 84 rest >>= fun dv => pure <| dv.bind fun val => (le32 val).bind fun (ver, r) =>
           match r with
           | [] => none
           | st :: r' => some (if st % 2 = 1 then s!"v:{errOf r'}:{uid}:{ver}" else s!"v:OK:{uid}:{ver}")
   else if code = 101 then -- 'e'
-    pure <| (cd.dec 84 body).map fun val => s!"e:{errOf val}"
+    cd.decode 84 body >>= fun dv => pure <| dv.map fun val => s!"e:{errOf val}"
   else if code = 111 then -- 'o'
-    pure <| (cd.dec 84 body).bind fun val =>
+    cd.decode 84 body >>= fun dv => pure <| dv.bind fun val =>
       match val with
       | [] => none
       | st :: r => some (if st % 2 = 1 then s!"o:{errOf r}" else "o:OK")
   else if code = 122 then -- 'z'
-    pure <| (cd.dec 84 body).bind fun val =>
+    cd.decode 84 body >>= fun dv => pure <| dv.bind fun val =>
       match val with
       | [] => none
       | st :: r => some (if st % 2 = 1 then s!"z:{errOf r}:-" else s!"z:OK:{toHex r}")
@@ -184,19 +184,19 @@ def decodeResponse (cd : Codec) (code down : Nat) (data : List Nat) : Res (Optio
     if data.length > 1 then do
       let k ← idx data 1
       let rest ← sliceFrom data 2
-      if k = 101 then pure <| (cd.dec 84 rest).map fun d => s!"y:{errName d}:-"
-      else if k = 111 then pure <| (cd.dec down rest).map fun d => s!"y:OK:{toHex d}"
+      if k = 101 then cd.decode 84 rest >>= fun dv => pure <| dv.map fun d => s!"y:{errName d}:-"
+      else if k = 111 then cd.decode down rest >>= fun dv => pure <| dv.map fun d => s!"y:OK:{toHex d}"
       else pure none
     else pure none
   else if code = 114 then -- 'r'
-    pure <| (cd.dec down body).bind fun val =>
+    cd.decode down body >>= fun dv => pure <| dv.bind fun val =>
       match val with
       | [] => none
       | st :: r =>
         if st % 2 = 1 then some s!"r:{errOf r}:0:-"
         else (le32 r).map fun (size, d) => s!"r:OK:{size}:{toHex d}"
   else if code = 99 then  -- 'c'
-    pure <| (cd.dec down body).bind fun val =>
+    cd.decode down body >>= fun dv => pure <| dv.bind fun val =>
       match val with
       | [] => none
       | st :: r =>
@@ -244,7 +244,7 @@ def handleCli (toks : List String) : String :=
       match recT.mapM parseRR with
       | none => "bad-op"
       | some rrs =>
-        match decodeAnswer (oracleCodec (parseOracle orc)) dom.length code.toNat rrs with
+        match decodeAnswer (oracleCodec (parseOracle orc) (parsePanics orc)) dom.length code.toNat rrs with
         | .panic => "PANIC"
         | .ok none => "ERR"
         | .ok (some s) => s
@@ -255,6 +255,10 @@ def handle (toks : List String) : String :=
   match toks with
   | "srv" :: rest => SA.DnsServer.handle rest
   | "cli" :: rest => handleCli rest
+  -- `dec|enc <code> …`: the real codec on one input / a swept range.  The codecs are parameters of the models and the
+  -- theorems assume `Codec.Total`, so the model's answer is the hypothesis itself: the call returns.
+  | "dec" :: _ :: _ => "RETURNS"
+  | "enc" :: _ :: _ => "RETURNS"
   | _ => "bad-op"
 
 end SA.DnsClient
